@@ -2,19 +2,19 @@
 (* operation sequences on one multiplexer end, from MuxTable; reads only where they return *)
 EXTENDS MuxTable, Json
 CONSTANT MaxOps
-VARIABLES ops, emitted
-gvarsM == <<tvarsM, ops, emitted>>
+VARIABLES ops, emitted, initblocked
+gvarsM == <<tvarsM, ops, emitted, initblocked>>
 Op(o, x) == [op |-> o, x |-> x]
 Do(o, x, A) == A /\ ops' = Append(ops, Op(o, x))
-GInit == TInit /\ ops = <<>> /\ emitted = FALSE
+GInit == TInit /\ ops = <<>> /\ emitted = FALSE /\ initblocked = blocked
 GStep == /\ ~emitted /\ Len(ops) < MaxOps
          /\ \/ \E i \in Ids : Do("Open", i, Open(i)) \/ Do("Send", i, Send(i))
             \/ \E h \in Handles : \/ Do("Close", h, CloseH(h))
                                   \/ (CanRead(h) /\ Do("Read", h, IF inbox[h] # <<>> THEN ReadData(h) ELSE ReadErr(h)))
-            \/ Do("MClose", 0, MClose)
-         /\ UNCHANGED emitted
+            \/ Do("MClose", 0, MClose) \/ Do("Unblock", 0, Unblock)
+         /\ UNCHANGED <<emitted, initblocked>>
 GEmit == /\ ~emitted /\ Len(ops) > 0 /\ (Len(ops) = MaxOps \/ mclosed)
-         /\ PrintT(<<"CASE", ToJson([ops |-> ops])>>)
-         /\ emitted' = TRUE /\ UNCHANGED <<tvarsM, ops>>
+         /\ PrintT(<<"CASE", ToJson([ops |-> ops, blocked |-> initblocked])>>)
+         /\ emitted' = TRUE /\ UNCHANGED <<tvarsM, ops, initblocked>>
 GSpec == GInit /\ [][GStep \/ GEmit]_gvarsM
 =============================================================================
